@@ -603,3 +603,48 @@ Fixpoint imports_first (ds : list decl) : bool :=
   | DImport _ _ :: t => imports_first t
   | _ => forallb (fun d => match d with DImport _ _ => false | _ => true end) ds
   end.
+
+(* ---------------------------------------------------------------- side condition allowing TRACKED shadowing *)
+
+(* okb: every := variable and every parameter of a function literal / lambda; okv: every `var` variable *)
+Fixpoint goodv_e (okb okv : name -> bool) (e : expr) : bool :=
+  match e with
+  | EInt _ | EStr _ | EVar _ | EField _ _ => true
+  | EAdd a b => goodv_e okb okv a && goodv_e okb okv b
+  | ECall _ args => goodv_es okb okv args
+  | ESel _ _ args => goodv_es okb okv args
+  | EFuncLit ps _ body => forallb okb ps && goodv_ss okb okv body
+  | ELambda ps rhs => forallb okb ps && goodv_es okb okv rhs
+  | ELambda2 ps body => forallb okb ps && goodv_ss okb okv body
+  | ENew _ e1 => goodv_e okb okv e1
+  end
+with goodv_es (okb okv : name -> bool) (es : exprs) : bool :=
+  match es with ENil => true | ECons e t => goodv_e okb okv e && goodv_es okb okv t end
+with goodv_s (okb okv : name -> bool) (s : stmt) : bool :=
+  match s with
+  | SExpr _ e => goodv_e okb okv e
+  | SDefine x e => okb x && goodv_e okb okv e
+  | SVar x e => okv x && goodv_e okb okv e
+  | SIf c thn els => goodv_e okb okv c && goodv_ss okb okv thn && goodv_ss okb okv els
+  | SReturn r => goodv_es okb okv r
+  | SBlock b => goodv_ss okb okv b
+  end
+with goodv_ss (okb okv : name -> bool) (ss : stmts) : bool :=
+  match ss with SNil => true | SCons s t => goodv_s okb okv s && goodv_ss okb okv t end.
+
+Definition goodv_decl (okb okv okf : name -> bool) (d : decl) : bool :=
+  match d with
+  | DImport _ _ | DType _ => true
+  | DVar x e => okb x && goodv_e okb okv e
+  | DFunc f ps _ b => okf f && forallb okb ps && goodv_ss okb okv b
+  | DMethod _ r _ ps _ b => okb r && forallb okb ps && goodv_ss okb okv b
+  end.
+
+(* No := variable, parameter, receiver or package-level variable is named like an import, nothing is
+   named like a builtin the formatter substitutes; `var` statements inside functions MAY be named like an
+   import (this is the shadowing formatCtx tracks). *)
+Definition scope_safe (p : prog) : bool :=
+  let ds := pdecls p in
+  forallb (goodv_decl (fun x => not_import ds x && negb (is_subst x))%bool
+                      (fun x => negb (is_subst x))
+                      (fun f => negb (is_subst f))) ds.
